@@ -14,6 +14,27 @@
 #ifndef VF_NAME_MAX
 #define VF_NAME_MAX 3
 #endif
+/* -DVF_FN_count is modular: in the verifier the calls of http_hdr_val_get_ex inside
+ * http_hdr_val_get_count are redirected (goto-instrument --replace-calls) to this stub, which
+ * answers with the SPECIFICATION of http_hdr_val_get_ex (the obligation of the default
+ * variant of this harness); the job then shows that the counting loop over that answer
+ * yields the number of matching fields.  Natively (replay) the real callee runs. */
+int
+vf_stub_get_ex(const uint8_t *hdr, size_t n, const uint8_t *name, size_t name_len, size_t offset,
+    const uint8_t **val_ret, size_t *val_ret_size, size_t *offset_next) {
+	vs_span v = { 0, 0 };
+	size_t nx = 0;
+
+	if (!vs_hdr_find(hdr, n, name, name_len, offset, &v, &nx))
+		return (ESPIPE);
+	if (NULL != val_ret)
+		(*val_ret) = hdr + v.pos;
+	if (NULL != val_ret_size)
+		(*val_ret_size) = v.len;
+	if (NULL != offset_next)
+		(*offset_next) = nx;
+	return (0);
+}
 void harness(void) {
 	VF_NONDET_BYTES(in, N);
 	VF_NONDET(size_t, n);
